@@ -770,7 +770,7 @@ class Script(object):
 
         if len(self.stack) == 0:
             return False
-        if self.stack.pop() == b'':
+        if decode_num(self.stack.pop()) == 0:
             return False
 
         return True
@@ -881,7 +881,7 @@ class Stack(list):
         return True
 
     def op_verify(self):
-        if self.pop() == b'':
+        if decode_num(self.pop()) == 0:
             return False
         return True
 
@@ -923,7 +923,7 @@ class Stack(list):
     def op_ifdup(self):
         if not len(self):
             raise ValueError("Stack op_ifdup method requires minimum of 1 stack item")
-        if self[-1] != b'':
+        if decode_num(self[-1]) != 0:
             self.append(self[-1])
         return True
 
@@ -1013,13 +1013,13 @@ class Stack(list):
     def op_not(self):
         if not self.is_arithmetic():
             return False
-        self.append(b'\1' if self.pop() == b'' else b'')
+        self.append(b'\1' if decode_num(self.pop()) == 0 else b'')
         return True
 
     def op_0notequal(self):
         if not self.is_arithmetic():
             return False
-        self.append(b'' if self.pop() == b'' else b'\1')
+        self.append(b'' if decode_num(self.pop()) == 0 else b'\1')
         return True
 
     def op_add(self):
@@ -1047,7 +1047,7 @@ class Stack(list):
             return False
         a = self.pop()
         b = self.pop()
-        if a != b'' and b != b'':
+        if decode_num(a) != 0 and decode_num(b) != 0:
             self.append(b'\1')
         else:
             self.append(b'')
@@ -1058,7 +1058,7 @@ class Stack(list):
             return False
         a = self.pop()
         b = self.pop()
-        if a != b'' or b != b'':
+        if decode_num(a) != 0 or decode_num(b) != 0:
             self.append(b'\1')
         else:
             self.append(b'')
